@@ -16,8 +16,15 @@ package derive
 
 import "go/types"
 
-// IsError returns whether a type implements the Error interface.
+// IsError returns whether a type is the predeclared type error.
+// The generated functions declare the errors they are given and return as error:
+// a function whose last result is another type that implements error is not one of their arguments.
 func IsError(t types.Type) bool {
+	return types.Identical(t, types.Universe.Lookup("error").Type())
+}
+
+// ImplementsError returns whether a value of this type can be given where an error is asked for.
+func ImplementsError(t types.Type) bool {
 	typ, ok := t.(*types.Named)
 	if !ok {
 		return false
